@@ -146,7 +146,7 @@ func readByte(r io.Reader) (int64, byte, error) {
 		return 1, v, err
 	}
 	var v [1]byte
-	n, err := r.Read(v[:])
+	n, err := io.ReadFull(r, v[:])
 	return int64(n), v[0], err
 }
 
